@@ -153,12 +153,20 @@ impl TxPoolService {
 
                 if !may_recovered_txs.is_empty() {
                     let self_clone = self.clone();
+                    #[cfg(feature = "verif-hooks")]
+                    crate::verif::RECOVERING.fetch_add(
+                        may_recovered_txs.len() as u64,
+                        std::sync::atomic::Ordering::SeqCst,
+                    );
                     tokio::spawn(async move {
                         // push the recovered txs back to verify queue, so that they can be verified and submitted again
                         let mut queue = self_clone.verify_queue.write().await;
                         for tx in may_recovered_txs {
                             debug!("recover back: {:?}", tx.proposal_short_id());
                             let _ = queue.add_tx(tx, false, None);
+                            #[cfg(feature = "verif-hooks")]
+                            crate::verif::RECOVERING
+                                .fetch_sub(1, std::sync::atomic::Ordering::SeqCst);
                         }
                     });
                 }
